@@ -19,23 +19,30 @@ CLAIMS = {
  'C12': ('proof', 'length_error clauses, allocate(n<=max_size) call-site obligation, bit-precise overflow/conversion checks on every extracted arithmetic node.', '5.12'),
  'C13': ('proof', 'byte-frame obligations (w_ok/r_ok of every element access), requirement-minimality masks (ONLY_KINDS) on the leaves.', '5.13'),
  'C14': ('proof', 'new capacity >= needed and >= 1.5x old (saturating) on every reallocating function; arithmetic leaf proved for the full 64-bit range.', '5.14'),
+ 'C07': ('proof', 'Allocator identity is ghost state: constructors, copy/move assignment and swap contracts state get_allocator() per propagation trait (configurations main, aprop, aeq, pocs and the other trait combinations in the thorough tier); BLOCK ties every buffer to the current allocator.', '5.7'),
+ 'C09': ('proof', 'steal_permitted (written from the property) ==> data() is the source\'s old data(), no element operation (ONLY_KINDS(0)), no allocator traffic, source default-state; otherwise element-wise; same-capacity and cross-capacity (pair_lt/pair_gt) move assignment, move construction, swap.', '5.9'),
+ 'C15': ('proof', 'Forward-iterator protocol (never dereferenced/advanced at or beyond last) as preconditions of the iterator model, range length without truncation, k-th element from k-th position; single-pass (input iterator) loops are not under contract yet.', '5.15'),
+ 'C18': ('proof', 'noexcept truthfulness only: every extracted function whose compiler-evaluated exception specification is noexcept carries the obligation that no exception leaves it (r8); the documented-condition grid (b) and trait facts (c) are not built.', '5.18'),
  'C01': ('proof', 'std::vector post-state (size, returned position, prefix preserved, new elements equal the argument) as ensures clauses over Skolemised cells, per operation under contract.', '5.1'),
 }
 
 NA = {
- 'C07': 'not yet claimed: allocator-propagation contracts (copy/move assignment, swap, constructors) are not written yet',
  'C08': 'not yet claimed: CONSTEVAL=1 configuration not yet proved',
- 'C09': 'not yet claimed: move/swap steal contracts not written yet',
- 'C15': 'not yet claimed: single-pass iterator protocol contracts not written yet',
  'C16': 'not yet claimed: comparison / non-member contracts not written yet',
  'C17': 'not yet claimed: only -std=c++20 is extracted so far',
- 'C18': 'not yet claimed: noexcept obligations are generated (r8) but the documented-condition grid is not built yet',
- 'C19': 'not yet claimed: default_buffer_size extraction and ABI contract not built yet',
  'C20': 'behaviour of a Python/natvis script inside a debugger: no contract on the C++ functions can express or decide it (DESIGN.md 5.20)',
 }
 
 def main():
     checks = []
+    checks.append({
+        'property_id': 'C19',
+        'quick_cmd': 'python3 c19/c19.py --tier quick', 'thorough_cmd': 'python3 c19/c19.py --tier thorough',
+        'evidence_file': '/verif/evidence/C19.json', 'engine': 'cbmc-c19',
+        'level_claimed': {'category': 'proof', 'text': 'default_buffer_size::value against "largest count whose object fits in 64 bytes", decided by CBMC over the property\'s whole finite domain, on the initialiser expressions extracted from the header each run, modulo an assumed ABI size contract validated against both compilers on a static_assert grid; inline_capacity(), N==0 object size and buffer alignment as compiled static_asserts.', 'design_ref': 'DESIGN.md 5.19'},
+        'level_note': 'Assumed: the Itanium-ABI size contract in /verif/c19/abi_model.h (validated, not proved), textual extraction of two initialisers (token-checked), CBMC 6.11. Two known findings (KF-C19-1, KF-C19-2).',
+        'technique': 'contract-based: CBMC decides an extracted constant-expression function against its specification under an assumed, grid-validated ABI contract',
+    })
     for pid in sorted(CLAIMS):
         cat, text, ref = CLAIMS[pid]
         checks.append({
@@ -54,10 +61,10 @@ def main():
         'setup_cmd': 'true',
         'hooks': {'guard': 'GHARVEYMN_SMALL_VECTOR_VERIF', 'enable': 'no hooks are needed: contracts live in /verif/contracts and are spliced into the extracted C text',
                   'baseline_off_cmd': 'bash /verif/tools/baseline.sh', 'source_commits': [], 'add_only': True},
-        'engines': [{'name': 'cbmc-dfcc', 'path': '/verif/verif.py', 'serves_properties': sorted(CLAIMS),
+        'engines': [{'name': 'cbmc-c19', 'path': '/verif/c19/c19.py', 'serves_properties': ['C19'], 'kind_free_text': 'extraction of default_buffer_size + ABI contract + CBMC'}, {'name': 'cbmc-dfcc', 'path': '/verif/verif.py', 'serves_properties': sorted(CLAIMS),
                      'kind_free_text': 'clang JSON AST extraction -> C -> CBMC 6.11 code contracts (DFCC), per-function modular proofs'}],
         'checks': checks,
-        'not_applicable': [{'property_id': k, 'reason': v} for k, v in sorted(NA.items()) if k not in CLAIMS],
+        'not_applicable': [{'property_id': k, 'reason': v} for k, v in sorted(NA.items()) if k not in CLAIMS and k != 'C19'],
         'notes': 'See DESIGN.md. Exit 2 of a check means undecided (tool limit / extraction abort), never a violation.',
     }
     json.dump(m, open(os.path.join(ROOT, 'MANIFEST.json'), 'w'), indent=1)
